@@ -9,6 +9,7 @@ Step(ss, e) == CASE e.ev = "trun" -> OnTRun(ss, e) [] e.ev = "tready" -> OnTRead
                  [] e.ev = "hold" -> OnHold(ss, e) [] e.ev = "release" -> OnRelease(ss, e) [] e.ev = "quiet" -> OnSQuiet(ss, e)
                  [] e.ev = "nonotify" -> OnNoNotify(ss, e) [] e.ev = "tsaw" -> OnTSaw(ss, e) [] e.ev = "tgate" -> OnTGate(ss, e)
                  [] e.ev = "wtask" -> OnWTask(ss, e) [] e.ev = "build" -> OnBuild(ss, e) [] e.ev = "retry" -> OnRetry(ss, e)
+                 [] e.ev = "http" -> OnHttp(ss, e)
                  [] e.ev \in {"hang", "panic"} -> SFlag(ss, "c20-serve-hung-or-panicked") [] OTHER -> ss
 TInit == l = 1 /\ s = SInit(0) /\ sid = ""
 TNext == /\ l <= Len(Trace)
